@@ -313,6 +313,10 @@ def write_replay(pid, tag, payload):
 
 def _main(prop, pid, tier, seed, replay, rundir, t0):
     violations = []      # (replay_path, suffix)
+    if not replay:
+        for f in os.listdir(VERIF + '/replays'):
+            if f.startswith(pid + '-'):
+                os.remove(VERIF + '/replays/' + f)
     known_lines = []
     notes = []
     # 1. proof step
@@ -367,15 +371,13 @@ def _main(prop, pid, tier, seed, replay, rundir, t0):
     # 3. decide
     kf = known_findings(pid)
     reported = 0
-    seen_sig = set()
+    seen = set()
+    attempts = 0
     for i in mism:
         c = cases[i]
-        sig = prop.signature(c.text, impl[i], model[i]) if hasattr(prop, 'signature') else None
-        if sig is not None and sig in seen_sig:
-            continue
-        seen_sig.add(sig)
-        if reported >= 3:
-            continue
+        if reported >= 3 or attempts >= 12:
+            break
+        attempts += 1
         def still(t):
             a = run_side(HARNESS, [t], shards=1)[0]
             b = run_side(RUNNER, [t], shards=1)[0]
@@ -388,6 +390,9 @@ def _main(prop, pid, tier, seed, replay, rundir, t0):
                 small = shrink(c.text, still)
             except Exception as e:
                 notes.append('shrink failed: %r' % e)
+        if small in seen:
+            continue
+        seen.add(small)
         si = run_side(HARNESS, [small], shards=1)[0]
         sm = run_side(RUNNER, [small], shards=1)[0]
         fclass = prop.classify(small, si, sm) if hasattr(prop, 'classify') else ''
@@ -406,6 +411,12 @@ def _main(prop, pid, tier, seed, replay, rundir, t0):
             suffix = ' no-failing-input-found'
         violations.append((path, suffix))
         reported += 1
+    if mism and not violations and not known_lines:
+        # every mismatch shrank to something already seen/unclassifiable: still a failed correspondence
+        c = cases[mism[0]]
+        path = write_replay(pid, '1', dict(property=pid, tier=tier, seed=seed, kind='correspondence-mismatch', case=c.text,
+                            impl_output=impl[mism[0]], model_output=model[mism[0]]))
+        violations.append((path, ''))
     return finish(prop, pid, tier, seed, t0, pr, cases, mism, violations, known_lines, dist, notes,
                   nontriv=len(nontriv), impl=impl)
 
